@@ -1,5 +1,6 @@
 #!/usr/bin/env python3
 """Translator: gscrib/geometry/transform.py (class Transform) + gscrib/geometry/transformer.py (class CoordinateTransformer)
+               + the two transform context managers of gscrib/gcode_core.py (class GCodeCore)
                ->  GscribModel/Gen/XformSrc.lean
 
 Reads the *source text* (by AST; nothing is imported or executed) of the two classes that hold the coordinate
@@ -9,6 +10,14 @@ field per `__slots__` entry:
     C.m (self : C) (args…) : C × Option Err      a method that returns nothing: the object when the method returned or
                                                  raised, and the exception class (`ValueError`/`IndexError`/`KeyError`)
     C.m (self : C) (args…) : T                   a method whose body is `name = e`* `return e` (no mutation, no raise)
+
+and the `@contextmanager` generators `GCodeCore.current_transform` / `GCodeCore.named_transform` as an enter / exit pair
+over the translated `CoordinateTransformer` (`t` is the object `self.transform` returns):
+
+    GCodeCore.m_enter (t) (args…) : CoordinateTransformer × Except Err Saved     the statements before the `yield`: the transformer as
+                                                 it is when `__enter__` returns or raises, and the local the `finally` block needs
+    GCodeCore.m_exit (t) (args…) (saved : Saved) : CoordinateTransformer × Option Err      the `finally` block, run on whatever
+                                                 transformer the body of the `with` left behind, normally or by an exception
 
 `Props/XformTie.lean` proves the hand-written model (`Model/Transform.lean`: `Xf`, `Tr`) equal to these functions for
 all states and arguments, so the order of the matrix products (pivot conjugation, left multiplication, inverse after
@@ -33,6 +42,19 @@ Subset (anything else makes the translator REFUSE, exit 3 - it never guesses):
                `np.eye(4)`, `linalg.inv(m)`, `np.diag(t)`, `m.copy()`, `copy.deepcopy(e)`, `Point(*p)`, `Point.zero()`,
                `Point.from_vector(v)`, `p.to_vector()`, `p.resolve()`, calls of value methods, `member.m()` for an enum method
                of the form `return CONST[self.value]` (CONST a module-level dict of number lists; a missing key refuses)
+  contexts     (gcode_core.py, class GCodeCore) decorator `@contextmanager` only (imported from contextlib); parameters `self` and
+               annotated ones; body = docstring, pre-statements, then exactly `try: yield self.transform` / `finally:` post-statements
+               (no handlers, no `else`, nothing after the `try`, one `yield` in the whole function, no `return`);
+               pre / post statements: `local = self.transform.m(args)` (pre only; m a translated value method) and
+               `self.transform.m(args)` (m a translated method that returns nothing); args are parameters of the generator or saved
+               locals, a missing argument takes the method's default if that is `None`; a `str` passed for `str | None` is `some`.
+               At most one local is saved; it must be read exactly once, in the `finally` block (saved but unused: refused);
+               the `finally` block reads nothing but parameters and that local.  `self.transform` must be the plain property
+               `return self._transformer`, and `self._transformer = CoordinateTransformer()` in `__init__` the only assignment of
+               that attribute in the package; no other class defines `current_transform` / `named_transform`.
+               Assumed of `contextlib.contextmanager`: `__enter__` runs the generator to its `yield` (an exception before it
+               propagates and no block is entered); `__exit__` resumes / throws into it, so the `finally` block runs exactly once
+               whether the body returned or raised, and an exception of the body is re-raised afterwards.
   numerics     the statements of `reflect` that build the Householder matrix and those of `rotate` that ask scipy for the
                rotation block are *pinned* (PINNED_BLOCKS: their text must be exactly the text this translator was written
                against) and become ONE let of a prelude primitive: `householderMatrix normal`, resp. `blockMatrix scipy_rotation`
@@ -108,6 +130,15 @@ PINNED_METHODS = {
 }
 PINNED_ENUM_MEMBERS = {"Axis": ["X", "Y", "Z"]}      # `_rotation_vector` has an entry for exactly these (anything else: KeyError)
 CONSUMED = {("CoordinateTransformer", "_revert_state"): "state"}      # checked against gcode_core.py (check_consumers)
+# the transform context managers of GCodeCore (translated as enter / exit pairs over the translated CoordinateTransformer)
+CORE_FILE = "gscrib/gcode_core.py"
+CORE_CLASS = "GCodeCore"
+CONTEXTS = ["current_transform", "named_transform"]
+CORE_IMPORTS = ["from contextlib import contextmanager", "from .geometry import Point, CoordinateTransformer"]
+CORE_PROPERTY = ("transform", "_transformer", "CoordinateTransformer")     # `self.transform` is `self._transformer`, a CoordinateTransformer()
+LEAN_RESERVED = {"t", "e", "fun", "let", "match", "with", "if", "then", "else", "do", "end", "from", "at", "in", "have", "show", "open",
+                 "def", "theorem", "structure", "where", "namespace", "section", "instance", "class", "deriving", "import", "by",
+                 "some", "none", "default", "self", "Type", "Prop", "Sort"}
 REF_TYPES = {"M4", "NdArray", "Transform", "List Transform", "PyDict Transform"}
 DEEPCOPY_TYPES = {"Transform", "List Transform"}
 
@@ -236,6 +267,7 @@ class T:
         self.tuple_type = None
         self.order = []          # (class, method) in emission order
         self.active = []
+        self.core = self.read_core()      # name -> FunctionDef of the context managers of GCodeCore
 
     # ---------------------------------------------------------------- pinned context
     def check_point(self):
@@ -332,6 +364,184 @@ class T:
             raise Unsupported(f"_revert_state is also used in {other}")
         if seen == 0:
             raise Unsupported("gcode_core.py no longer calls _revert_state")
+
+    # ---------------------------------------------------------------- the context managers of GCodeCore
+    def read_core(self):
+        """class GCodeCore of gcode_core.py: the two generators, and that `self.transform` is one CoordinateTransformer per object"""
+        tree = ast.parse((self.repo / CORE_FILE).read_text())
+        imports = {src(n) for n in tree.body if isinstance(n, (ast.Import, ast.ImportFrom))}
+        for need in CORE_IMPORTS:
+            if need not in imports:
+                raise Unsupported(f"{CORE_FILE}: expected `{need}`")
+        found = [n for n in tree.body if isinstance(n, ast.ClassDef) and n.name == CORE_CLASS]
+        if len(found) != 1:
+            raise Unsupported(f"class {CORE_CLASS} not found in {CORE_FILE}")
+        cls = found[0]
+        prop, attr, ctor = CORE_PROPERTY
+        defs = {}
+        for n in cls.body:
+            if isinstance(n, (ast.FunctionDef, ast.AsyncFunctionDef)):
+                defs.setdefault(n.name, []).append(n)
+        for name in CONTEXTS + [prop, "__init__"]:
+            if len(defs.get(name, [])) != 1 or not isinstance(defs[name][0], ast.FunctionDef):
+                raise Unsupported(f"{CORE_CLASS}.{name}: expected exactly one definition in {CORE_FILE}")
+        # self.transform: the plain read-only property `return self._transformer`
+        p = defs[prop][0]
+        if [ast.unparse(d) for d in p.decorator_list] != ["property"] or [a.arg for a in p.args.args] != ["self"] \
+                or [src(st) for st in strip_doc(p.body)] != [f"return self.{attr}"]:
+            fail(p, f"{CORE_CLASS}.{prop} is no longer the property `return self.{attr}`")
+        for n in cls.body:
+            tg = n.targets if isinstance(n, ast.Assign) else [n.target] if isinstance(n, (ast.AnnAssign, ast.AugAssign)) else []
+            if any(isinstance(t, ast.Name) and t.id in (prop, attr) for t in tg):
+                fail(n, f"class-level `{src(n)[:50]}` in {CORE_CLASS}")
+        # self._transformer is assigned once per object, in __init__, to a new CoordinateTransformer - nowhere else in the package
+        want = f"self.{attr} = {ctor}()"
+        stores = []
+        for f in sorted((self.repo / "gscrib").rglob("*.py")):
+            rel = str(f.relative_to(self.repo))
+            text = f.read_text()
+            if rel != CORE_FILE and any(f"def {c}" in text for c in CONTEXTS):
+                raise Unsupported(f"{rel} also defines one of {CONTEXTS}")
+            if attr not in text:
+                continue
+            for n in ast.walk(tree if rel == CORE_FILE else ast.parse(text)):
+                if isinstance(n, ast.Attribute) and n.attr == attr and not isinstance(n.ctx, ast.Load):
+                    stores.append((rel, n.lineno))
+                if isinstance(n, ast.Constant) and n.value == attr:          # setattr(self, "_transformer", …) and the like
+                    stores.append((rel, n.lineno))
+        init_stores = [st for st in defs["__init__"][0].body if src(st) == want]
+        if len(init_stores) != 1 or stores != [(CORE_FILE, init_stores[0].lineno)]:
+            raise Unsupported(f"`{want}` in {CORE_CLASS}.__init__ is no longer the only assignment of {attr} (assignments at {stores})")
+        return {name: defs[name][0] for name in CONTEXTS}
+
+    def context_pair(self, name):
+        """`@contextmanager def m(self, args): pre; try: yield self.transform; finally: post` -> [`m_enter` (pre), `m_exit` (post)]"""
+        gen = self.core[name]
+        ct = self.classes[CORE_PROPERTY[2]]
+        recv = f"self.{CORE_PROPERTY[0]}"
+        if [ast.unparse(d) for d in gen.decorator_list] != ["contextmanager"]:
+            fail(gen, f"{CORE_CLASS}.{name}: expected the one decorator @contextmanager")
+        a = gen.args
+        if a.kwonlyargs or a.kwarg or a.vararg or a.posonlyargs or a.defaults or not a.args or a.args[0].arg != "self":
+            fail(gen, f"signature of {CORE_CLASS}.{name}")
+        params = []
+        for p in a.args[1:]:
+            ann = ast.unparse(p.annotation) if p.annotation is not None else None
+            if ann not in PARAM_TYPES or is_ref(PARAM_TYPES[ann]):
+                fail(gen, f"parameter {p.arg}: {ann} of {CORE_CLASS}.{name}")
+            if p.arg in LEAN_RESERVED or (p.arg[0] == "t" and p.arg[1:].isdigit()):
+                fail(gen, f"parameter name `{p.arg}`")
+            params.append((p.arg, PARAM_TYPES[ann]))
+        body = strip_doc(gen.body)
+        shape = f"{CORE_CLASS}.{name}: expected `pre-statements; try: yield {recv}; finally: post-statements`"
+        if not body or not isinstance(body[-1], ast.Try):
+            fail(gen, shape + " (the `try` is not the last statement)")
+        tr = body[-1]
+        if tr.handlers or tr.orelse or not tr.finalbody or len(tr.body) != 1 or not isinstance(tr.body[0], ast.Expr) \
+                or not isinstance(tr.body[0].value, ast.Yield) or tr.body[0].value.value is None or src(tr.body[0].value.value) != recv:
+            fail(tr, shape)
+        bad = [n for n in ast.walk(gen) if isinstance(n, (ast.Yield, ast.YieldFrom, ast.Return, ast.Await, ast.Lambda, ast.FunctionDef))
+               and n is not gen and n is not tr.body[0].value]
+        if bad:
+            fail(bad[0], f"{CORE_CLASS}.{name}: a second yield / a return / a nested function")
+        pre, post = body[:-1], list(tr.finalbody)
+        # the locals: assigned once, before the yield; read once, in the finally block
+        stored = [n for b in pre + post for n in ast.walk(b) if isinstance(n, ast.Name) and not isinstance(n.ctx, ast.Load)]
+        names = [n.id for n in stored]
+        if len(names) != len(set(names)) or len(names) > 1:
+            fail(gen, f"{CORE_CLASS}.{name}: at most one local, assigned once, is translated (assigned: {names})")
+        for n in names:
+            if n in LEAN_RESERVED or n in dict(params) or (n[0] == "t" and n[1:].isdigit()) or not n.isidentifier() or not n.isascii():
+                fail(gen, f"{CORE_CLASS}.{name}: local name `{n}`")
+            if any(isinstance(x, ast.Name) and x.id == n and not isinstance(x.ctx, ast.Load) for b in post for x in ast.walk(b)):
+                fail(gen, f"{CORE_CLASS}.{name}: `{n}` is assigned in the finally block")
+            reads_pre = [x for b in pre for x in ast.walk(b) if isinstance(x, ast.Name) and x.id == n and isinstance(x.ctx, ast.Load)]
+            reads_post = [x for b in post for x in ast.walk(b) if isinstance(x, ast.Name) and x.id == n and isinstance(x.ctx, ast.Load)]
+            if reads_pre or len(reads_post) != 1:
+                fail(gen, f"{CORE_CLASS}.{name}: the saved local `{n}` must be read exactly once, in the finally block "
+                          f"(read {len(reads_pre)} times before the yield, {len(reads_post)} times after)")
+        state = {"n": 0, "local": None}          # local: (name, Lean type) once assigned
+
+        def arg_list(call, mname, env):
+            m = ct.methods[mname]
+            sig = self.signature(ct, mname)
+            if self.oracle(ct, mname) or m.args.vararg or call.keywords or any(isinstance(x, ast.Starred) for x in call.args):
+                fail(call, f"call of {ct.name}.{mname} with * / keyword arguments or a value only scipy knows")
+            ps = m.args.args[1:]
+            defaults = dict(zip([p.arg for p in ps][len(ps) - len(m.args.defaults):], m.args.defaults))
+            if len(call.args) > len(ps):
+                fail(call, f"too many arguments for {ct.name}.{mname}")
+            out = ""
+            for i, (pname, pty) in enumerate(sig):
+                if i < len(call.args):
+                    x = call.args[i]
+                    if not isinstance(x, ast.Name) or x.id not in env:
+                        fail(call, f"argument `{src(x)[:40]}`: only parameters of {name} and its saved local are translated")
+                    t, ty = x.id, env[x.id]
+                    if ty == "String" and pty == "Option String":
+                        t, ty = f"(some {t})", pty
+                elif pname in defaults and is_none(defaults[pname]) and pty.startswith("Option "):
+                    t, ty = "none", pty
+                else:
+                    fail(call, f"missing argument {pname} of {ct.name}.{mname}")
+                if ty != pty:
+                    fail(call, f"argument {pname} of {ct.name}.{mname}: expected {pty}, got {ty}")
+                out += f" {t}"
+            return out
+
+        def target(call):
+            """`self.transform.m(...)` -> m"""
+            fn = call.func
+            if not (isinstance(fn, ast.Attribute) and src(fn.value) == recv):
+                fail(call, f"{CORE_CLASS}.{name}: only calls of `{recv}.m(…)` are translated, got `{src(call)[:60]}`")
+            if fn.attr not in TRANSLATE[ct.name]:
+                fail(call, f"{ct.name}.{fn.attr} is not among the translated methods")
+            self.method(ct, fn.attr)
+            return fn.attr
+
+        def block(stmts, cur, env, depth, enter):
+            ind = "  " * depth
+            if not stmts:
+                if not enter:
+                    return f"{ind}({cur}, none)\n"
+                saved = state["local"][0] if state["local"] else "()"
+                return f"{ind}-- try: yield {recv}\n{ind}({cur}, .ok {saved})\n"
+            st, rest = stmts[0], stmts[1:]
+            note = f"{ind}-- {src(st)[:110]}\n"
+            if isinstance(st, ast.Assign) and len(st.targets) == 1 and isinstance(st.targets[0], ast.Name) and isinstance(st.value, ast.Call) and enter:
+                m = target(st.value)
+                if ct.kind[m] != "value":
+                    fail(st, f"{ct.name}.{m} returns nothing")
+                local, ty = st.targets[0].id, ct.rtype[m]
+                state["local"] = (local, ty)
+                return (note + f"{ind}let {local} : {ty} := ({ct.name}.{m} {cur}{arg_list(st.value, m, env)})\n"
+                        + block(rest, cur, dict(env, **{local: ty}), depth, enter))
+            if isinstance(st, ast.Expr) and isinstance(st.value, ast.Call):
+                m = target(st.value)
+                if ct.kind[m] != "effect":
+                    fail(st, f"the value of {ct.name}.{m} is dropped")
+                state["n"] += 1
+                nxt = f"t{state['n']}"
+                err = ".error e" if enter else "some e"
+                return (note + f"{ind}match {ct.name}.{m} {cur}{arg_list(st.value, m, env)} with\n{ind}| ({nxt}, some e) => ({nxt}, {err})\n"
+                        f"{ind}| ({nxt}, none) =>\n" + block(rest, nxt, env, depth + 1, enter))
+            fail(st, f"{CORE_CLASS}.{name}: statement `{src(st)[:70]}`")
+
+        env0 = dict(params)
+        enter = block(pre, "t", env0, 1, True)
+        local = state["local"]
+        state["n"] = 0
+        exit_ = block(post, "t", dict(env0, **({local[0]: local[1]} if local else {})), 1, False)
+        sig = "".join(f" ({p} : {ty})" for p, ty in params)
+        saved_ty = local[1] if local else "Unit"
+        saved_arg = saved_ty if " " not in saved_ty or saved_ty.startswith("(") else f"({saved_ty})"
+        saved_sig = f" ({local[0]} : {local[1]})" if local else ""
+        what = f"the saved local `{local[0]}`" if local else "nothing saved"
+        return [f"/-- `{CORE_CLASS}.{name}` ({CORE_FILE} line {gen.lineno}): entering the context - the statements before the `yield`; `t` is the object\n"
+                f"    `{recv}` returns.  The transformer as it is when `__enter__` returns or raises, and {what} -/\n"
+                f"def {CORE_CLASS}.{name}_enter (t : {ct.name}){sig} : {ct.name} × Except Err {saved_arg} :=\n{enter}",
+                f"/-- `{CORE_CLASS}.{name}`: leaving the context - the `finally` block, run on whatever the body left behind, returned or raised -/\n"
+                f"def {CORE_CLASS}.{name}_exit (t : {ct.name}){sig}{saved_sig} : {ct.name} × Option Err :=\n{exit_}"]
 
     # ---------------------------------------------------------------- types
     def param_type(self, cls, m, a, vararg=False):
@@ -970,11 +1180,14 @@ class T:
             missing = [s for s in cls.slots if s not in cls.ftype]
             if missing:
                 raise Unsupported(f"{cname}: no assignment tells the type of {missing}")
-        out = ["/- GENERATED by tools/gen_xform.py from gscrib/geometry/transform.py and gscrib/geometry/transformer.py (source text, by AST). Do not edit.",
+        pairs = [d for name in CONTEXTS for d in self.context_pair(name)]
+        out = ["/- GENERATED by tools/gen_xform.py from gscrib/geometry/transform.py, gscrib/geometry/transformer.py and the transform context",
+               "   managers of gscrib/gcode_core.py (source text, by AST). Do not edit.",
                "   Assumptions of the translation: arguments have the annotated types (typeguard) and are finite; `@`, `linalg.inv`, `np.eye`,",
                "   `np.diag`, slice assignment and the pinned `Point` methods are the primitives of Model/XformPrelude.lean; objects are values",
                "   (`copy.deepcopy` / `.copy()` = identity), sound because the translator refuses any store of a non-fresh object (aliasing);",
-               "   message texts are dropped. -/",
+               "   message texts are dropped; a `@contextmanager` generator `pre; try: yield x; finally: post` is entered by running `pre`",
+               "   and left - normally or by an exception - by running `post` once (contextlib). -/",
                "import GscribModel.Model.XformPrelude", "namespace GscribModel.Gen.XformSrc", "open GscribModel.Transform GscribModel.XformPrelude",
                "set_option linter.unusedVariables false", ""]
         for en in self.used_enums:
@@ -999,8 +1212,10 @@ class T:
                 out.append("deriving DecidableEq, Repr, Inhabited")
                 out.append("")
             out.append(cls.text[name])
+        out += pairs
         out.append("/-- names of the translated methods, in source order -/")
         names = [f'"{c}.{n}"' for c in FILES for n in sorted(TRANSLATE[c], key=lambda n: self.classes[c].methods[n].lineno)]
+        names += [f'"{CORE_CLASS}.{n}"' for n in sorted(CONTEXTS, key=lambda n: self.core[n].lineno)]
         out.append("def translated : List String := [" + ", ".join(names) + "]")
         out.append("")
         out.append("end GscribModel.Gen.XformSrc")
